@@ -78,6 +78,8 @@ func serverIsLocal(v ssa.Value) bool {
 
 func runC16(p *an.Prog, r *an.Run, tier string) {
 	checkFreshParams(p, r)
+	// what a connection answers is what Server.Handle made of this very request (shared with C14/C15)
+	checkReplyID(p, r)
 	regs := Registrations(p)
 	r.Floor("registrations", len(regs), 7)
 	exposed := map[string]string{}
@@ -941,6 +943,54 @@ func runC17rest(p *an.Prog, r *an.Run, tier string) {
 		walk(mt, "Message")
 		r.Floor("message-fields", nF, 8)
 		r.Check(len(pb) == 0, "payload-verbatim", "jsonrpc2.Message", mt.Obj().Pos(), "the message types carry foreign JSON as raw bytes", "%s", strings.Join(dedup(pb), "; "))
+		// ... and no codec edits the message it carries: in every ReadMessage/WriteMessage of a Codec implementation,
+		// and in the helpers they call, nothing is stored through the Request / Response pointers of a message (a copy
+		// `out := *msg` shares them: abbreviating out.Request.Params "for the log" rewrites the message being delivered)
+		var eb []string
+		nCodecFns := 0
+		seenFn := map[*ssa.Function]bool{}
+		var scan func(fn *ssa.Function, depth int)
+		scan = func(fn *ssa.Function, depth int) {
+			if fn == nil || seenFn[fn] || len(fn.Blocks) == 0 || !p.InRepo(fn) {
+				return
+			}
+			seenFn[fn] = true
+			nCodecFns++
+			an.AllInstrs(fn, func(in ssa.Instruction) {
+				st, ok := in.(*ssa.Store)
+				if !ok {
+					return
+				}
+				// walk the address chain for a load of an embedded Request/Response pointer
+				a := st.Addr
+				for i := 0; i < 6 && a != nil; i++ {
+					switch t := a.(type) {
+					case *ssa.FieldAddr:
+						a = t.X
+					case *ssa.IndexAddr:
+						a = t.X
+					case *ssa.UnOp:
+						if _, f, ok := embeddedPtrLoad(t); ok && (f == "Request" || f == "Response") {
+							eb = append(eb, an.FuncName(fn)+" writes into the "+f+" part of a message at "+p.Pos(st.Pos())+": the part is shared with the message being read or written, which no longer arrives as it was sent")
+						}
+						a = nil
+					default:
+						a = nil
+					}
+				}
+			})
+			if depth > 0 {
+				for _, c := range an.Calls(fn, false) {
+					scan(c.Common().StaticCallee(), depth-1)
+				}
+			}
+		}
+		for _, fn := range p.Repo {
+			if fn.Parent() == nil && (fn.Name() == "ReadMessage" || fn.Name() == "WriteMessage") && fn.Signature.Recv() != nil && !p.IsTestFunc(fn) {
+				scan(fn, 2)
+			}
+		}
+		r.Check(len(eb) == 0 && nCodecFns >= 6, "payload-verbatim", "codecs", token.NoPos, "no codec writes into the request/response part of a message", "%s (functions scanned: %d)", strings.Join(dedup(eb), "; "), nCodecFns)
 	} else {
 		r.Undec("payload-verbatim", "jsonrpc2.Message", token.NoPos, "type not found")
 	}
